@@ -88,7 +88,7 @@ Print Assumptions C17_requested_digits_margin.
 Example C17_printed_digits_ex :   (* -o 15, radius 1e-31 relative, 896-bit value: GMP's cap (21) binds, not out_digit (25) *)
   prec_of_digits 15 = 50%Z /\ out_digit 50 = 25%Z /\ gmp_digit_cap 50 = 21%Z /\
   outfloat_plan (- (3076 # 100)) 0 896 50 = PSig 21 /\
-  outfloat_plan (- (15 # 1)) 0 64 50 = PSig 16 /\ outfloat_plan (6 # 10) (7 # 10) 64 50 = PZeroExp 0.
+  outfloat_plan (- (15 # 1)) 0 64 50 = PSig 16 /\ outfloat_plan (6 # 10) (7 # 10) 64 50 = PZeroExp 1 /\ outfloat_plan (6 # 10) (- (7 # 10)) 64 50 = PZeroExp 0.
 Proof. repeat split; vm_compute; reflexivity. Qed.
 
 (* mps_output's loop: zero roots first (none when the set is the outside of the unit disc), then exactly the
@@ -139,18 +139,20 @@ Print Assumptions C17_zero_branch_close_partial.
 Example C17_zero_branch_close_ex : trunc (- (15911 # 100)) = (-159)%Z /\ trunc (- (1 # 2)) = 0%Z.
 Proof. split; reflexivity. Qed.
 
-(* Refuted for |x| > 1: rdpe_get_dl's exponent is the truncated logarithm, i.e. the exponent of d.ddd * 10^l, not
-   of GMP's 0.ddd * 10^l.  A component 5 with radius 20 prints "0.e0" and |0 - 5| > 10^0.  (Replayed on the real
-   code by the check: state "zero-branch-abs-ge-1".) *)
-Theorem C17_zero_branch_unit_refuted :
+(* Refuted for |x| > 1 FOR THE CODE BEFORE /repo commit 0b5aaff1 (outfloat_plan_prefix): rdpe_get_dl's exponent is the
+   truncated logarithm, i.e. the exponent of d.ddd * 10^l, not of GMP's 0.ddd * 10^l.  A component 5 with radius 20
+   printed "0.e0" and |0 - 5| > 10^0.  The defect was fixed (`if (d >= 1.0) l++;`); the check replays the witness on
+   every run (state "zero-branch-abs-ge-1") and now sees "0.e1", which the model of the code as it is (outfloat_plan,
+   DpeModel.zero_exp_code) renders too: see C17_zero_branch_code_covers. *)
+Theorem C17_zero_branch_prefix_refuted :
   exists (x rad lg lgabs : Q) (p : parsed),
     lg_within (rad / x) lg 1000 /\ lg_within x lgabs 1000 /\
-    outfloat_plan lg lgabs 64 53 = PZeroExp 0 /\
+    outfloat_plan_prefix lg lgabs 64 53 = PZeroExp 0 /\
     decimal_parse "0.e0" = Some p /\ parsed_unit p == p10 0 /\ close_b p x = false.
 Proof. exact zero_branch_unit_refuted. Qed.
-Print Assumptions C17_zero_branch_unit_refuted.
+Print Assumptions C17_zero_branch_prefix_refuted.
 
-(* with the exponent of fixes/C17_outfloat_zero_branch_exponent.patch the branch is within one unit for every x
+(* with the exponent of the repaired code (logarithm as a rational: outfloat_plan) the branch is within one unit for every x
    (exact logarithm assumed: partial in the same sense) *)
 Theorem C17_zero_branch_fixed_close_partial : forall (x lgabs : Q),
   (forall k : Z, lgabs <= inject_Z k -> Qabs x <= p10 k) ->
@@ -161,11 +163,11 @@ Print Assumptions C17_zero_branch_fixed_close_partial.
 Example C17_zero_branch_fixed_ex : zero_exp_fixed (699 # 1000) = 1%Z /\ zero_exp_fixed (- (15911 # 100)) = (-159)%Z /\ zero_exp_fixed 0 = 1%Z.
 Proof. repeat split; reflexivity. Qed.
 
-(* layout: which numeric fields a line has; a zero root in gnuplot-full reads s->root[-1] *)
+(* layout: which numeric fields a line has; a zero root in gnuplot-full is four literal zeros (since /repo commit c368997d) *)
 Example C17_layout_ex :
   line_fields Verbose (Some ANone) = [FRe true; FIm false] /\
   line_fields Compact (Some AReal) = [FRe true; FLitZero] /\
   line_fields Full None = [FLitZero; FLitZero; FLitZero] /\
   line_fields GnuplotFull (Some AImag) = [FLitZero; FIm true; FRad; FRad] /\
-  line_fields GnuplotFull None = [FLitZero; FLitZero; FUndef; FUndef].
+  line_fields GnuplotFull None = [FLitZero; FLitZero; FLitZero; FLitZero].
 Proof. repeat split; reflexivity. Qed.
